@@ -366,6 +366,16 @@ def solid_and_conversion(ctx):
         if np.any(_gt(np.abs(got[harm.row_of(l, m)] - ref), 1e-11 * (1 + np.abs(ref)))):
             ctx.violation("solid:differs-from-cartesian-form", f"solid harmonic (l={l}, m={m}) differs from its Cartesian closed form",
                           {"route": "solid", "l": l, "m": m})
+    # -- every number of points from 1 to 5 (a 3 x 3 input is still three points in rows: seeded change C08-J)
+    for npts in range(1, 6):
+        sp = np.stack([np.linspace(0.4, 1.7, npts), np.linspace(-2.0, 2.5, npts), np.linspace(0.3, 2.6, npts)], axis=1)
+        ctx.count(section="solid")
+        got = np.asarray(solid_harmonics(3, sp), dtype=float)
+        yy = harm.ylm_f64_angles(3, sp[:, 1], sp[:, 2])
+        want = np.array([np.sqrt(4 * np.pi / (2 * l + 1)) * sp[:, 0] ** l * yy[row] for row, (l, m) in enumerate(harm.horton_lm(3))])
+        if got.shape != want.shape or np.any(_gt(np.abs(got - want), 1e-12 * (1 + np.abs(want)))):
+            ctx.violation("solid:few-points:differs-from-definition", f"solid_harmonics for {npts} point(s) given as rows (r, azimuth, polar) "
+                          f"differs from sqrt(4pi/(2l+1)) r^l Y_lm (shape {got.shape})", {"route": "solid", "npoints": npts})
     # -- coordinate conversion
     for centre in (None, np.array([1.0, -2.0, 0.5])):
         c = np.zeros(3) if centre is None else centre
